@@ -150,3 +150,15 @@ CHECKS["C10"] = dict(
     design_ref="DESIGN.md 9/C10",
     level_text="Exhaustive within bounds on the real FCDeque; deque linearizability of every complete execution.",
 )
+
+CHECKS["C11"] = dict(
+    title="priority queues",
+    units=[dict(name="pq", src="harness/pq.cpp", ldflags=BOOST)],
+    rule=LIN_RULE,
+    aux_names=["quiescent_states", "executions_checked_against_full_pq_spec", "aux2", "aux3"],
+    explanation="MSPriorityQueue (capacity() 1, 3, 7; spin and mutex node locks; heap arrays that are not a power of two through a bounds-checked buffer): conservation of the item multiset "
+                "incl. the final drain, push fails only if capacity items can have been present, quiescent heap shape (tags, heap order, counter), and full bounded max-PQ linearizability "
+                "for every history in which no push overlaps a pop; FCPriorityQueue (std::vector and std::deque back ends): full max-PQ linearizability with ties",
+    design_ref="DESIGN.md 9/C11",
+    level_text="Exhaustive within bounds on the real priority queues; the MSPriorityQueue oracle demands exactly what the property states (conditional linearizability).",
+)
